@@ -12,7 +12,10 @@ use crate::client::task::{ClientLoop, SessionError, StateChange};
 use crate::client::Channel;
 use crate::common::frame::{FrameDestination, FrameWriter, FramedReader};
 use crate::common::phys::PhysLayer;
-use crate::server::task::{AuthorizationType, ServerCommand, SessionTask};
+use crate::server::task::{AuthorizationType, SessionTask};
+
+/// commands accepted by a server session (decode level change, shutdown)
+pub use crate::server::task::ServerCommand;
 use crate::server::{AuthorizationHandler, RequestHandler, ServerHandlerMap};
 use crate::{DecodeLevel, RequestError};
 
